@@ -1,5 +1,73 @@
 import KrroodVerif.Sexp
+import KrroodVerif.Model.Dao
+/-!
+Driver of C04 (and the case parser shared with C05). Case line:
+`(g (roots r…) (via k) (n <oid> <Class> <plain|alt|sub> "<scalars>" <MappingClass|-> "<mapping columns>" (tabs T…) <ref>…) …)`
+with `<ref>` = `(none)` | `(one t)` | `(many <assoc table> t…)` | `(none! <column>)` | `(one! <column> t)` (`!` = the
+field references the source's own table hierarchy). Nodes are listed in oid order 0,1,2,….
+-/
 namespace KrroodVerif.Drive.C04
-/-- stub: replaced when the model for C04 is built -/
-def run (_ : Sexp) : String := "model=unimplemented\tspec=unimplemented\ttrig="
+open KrroodVerif.Dao
+
+structure Case where
+  heap : Heap
+  roots : List Nat
+  via : Nat
+
+def parseKind : String → Option Kind
+  | "plain" => some .plain | "alt" => some .alt | "sub" => some .sub | _ => none
+
+def parseRef : Sexp → Option (Ref × FieldMeta)
+  | .list [.atom "none"] => some (.none, ⟨false, ""⟩)
+  | .list [.atom "none!", .atom c] => some (.none, ⟨true, c⟩)
+  | .list [.atom "one", t] => t.asNat?.map fun t => (.one t, ⟨false, ""⟩)
+  | .list [.atom "one!", .atom c, t] => t.asNat?.map fun t => (.one t, ⟨true, c⟩)
+  | .list (.atom "many" :: .atom a :: ts) => (ts.mapM Sexp.asNat?).map fun ts => (.many ts, ⟨false, a⟩)
+  | _ => none
+
+def parseNode : List Sexp → Option (Nat × Node)
+  | oid :: .atom cls :: .atom kind :: .atom scal :: .atom mcls :: .atom mscal :: .list (.atom "tabs" :: tabs) :: refs => do
+    let oid ← oid.asNat?
+    let kind ← parseKind kind
+    let tabs ← tabs.mapM Sexp.asAtom?
+    let rs ← refs.mapM parseRef
+    pure (oid, { lab := ⟨cls, scal⟩, kind := kind, view := ⟨mcls, mscal⟩, tabs := tabs,
+                 fields := rs.map (·.2), refs := rs.map (·.1) })
+  | _ => none
+
+def parseCase : Sexp → Option Case
+  | .list (.atom "g" :: items) => do
+    let roots ← (← Sexp.field? items "roots").mapM Sexp.asNat?
+    let via ← match Sexp.field? items "via" with
+      | some [v] => v.asNat?
+      | _ => some 0
+    let nodes ← (Sexp.fields items "n").mapM parseNode
+    -- oids must be 0,1,2,… in order
+    if (nodes.map (·.1)) != List.range nodes.length then none
+    else
+      let heap : Heap := nodes.map (·.2)
+      if roots.isEmpty || !(Heap.wf heap) || roots.any (fun r => r ≥ heap.length) then none
+      else pure { heap := heap, roots := roots, via := via }
+  | _ => none
+
+/-- `create_from_dao` of the dataset's mappings as a table: DAO label ↦ label of the original object -/
+def unmapOf (h : Heap) : Label → Option Label :=
+  let tbl := h.filterMap fun n => if n.kind == .plain then none else some ((daoMk n).lab, n.lab)
+  fun l => tbl.lookup l
+
+def showResult : Option (List Nat × St) → String
+  | some (roots, st) => canon st.out roots
+  | none => "error:model"
+
+def run (s : Sexp) : String :=
+  match parseCase s with
+  | none => "error=bad-case"
+  | some c =>
+    let unmap := unmapOf c.heap
+    let roots := c.roots.take 1
+    let m := showResult (roundTrip true unmap c.heap roots)
+    let mf := showResult (roundTrip false unmap c.heap roots)
+    let spec := canon c.heap roots
+    let trig := if trigStale unmap c.heap roots then "F-C04-1" else ""
+    s!"model={m}\tmodel_fixed={mf}\tspec={spec}\ttrig={trig}"
 end KrroodVerif.Drive.C04
